@@ -363,6 +363,11 @@ class ProbeGSC:
         self.last_real = None
 
     def __call__(self, tree):
+        if self.w.desc.get("observing_gsc"):
+            # a user-defined condition may look at anything public, at every consult
+            for _, d in tree.all_demes:
+                d.history, d.current_population, d.best_individual, d.centroid, d.all_individuals
+            tree.best_individual, tree.all_individuals, tree.n_evaluations
         real = bool(self.inner(tree))
         self.last_real = real
         if not self.forced and not real and "G" in self.w.choices:
